@@ -385,7 +385,7 @@ func run(r *core.Run) {
 	r.Bound("error_kinds", len(leaves))
 	r.Bound("contexts", len(contexts))
 	r.Bound("layouts", 3)
-	r.Rule("every error kind (unbound symbol, package-qualified unbound symbol as a value and as an operator, symbol of an unknown package, a binding form rejecting a name at bind time after its value forms ran (let / let* / flet / dotimes), (error ..), builtin type error, wrong arity, error inside a called function, a failing form written in a macro template, a failing form a macro built with list, set! of an unbound name, non-tail and tail recursion ending in an error) at every position of every nesting up to the depth bound of 31 contexts (argument positions, let/let* value and body, if test/branches, cond test/body, progn, lambda call, funcall, apply, map callback, labels, flet, handler-bind body, inside a handler, dotimes, thread-first, thunk, macro template argument, macro built argument, rethrown), each in 3 source layouts; plus every error kind x every context loaded from lisp through load-string / load-bytes (bare and under a rethrowing handler, elimination on and off) against the same source loaded by the host. Non-trivial = the program fails; distinct by source text")
+	r.Rule("every error kind (unbound symbol, package-qualified unbound symbol as a value and as an operator, symbol of an unknown package, a binding form rejecting a name at bind time after its value forms ran (let / let* / flet / dotimes), (error ..), builtin type error, wrong arity, error inside a called function, a failing form written in a macro template, a failing form a macro built with list, set! of an unbound name, non-tail and tail recursion ending in an error) at every position of every nesting up to the depth bound of 31 contexts (argument positions, let/let* value and body, if test/branches, cond test/body, progn, lambda call, funcall, apply, map callback, labels, flet, handler-bind body, inside a handler, dotimes, thread-first, thunk, macro template argument, macro built argument, rethrown), each in 3 source layouts; plus every error kind x every context loaded from lisp through load-string / load-bytes (bare and under a rethrowing handler, elimination on and off) against the same source loaded by the host; plus every error kind x every context with the definitions and the failing expression in two differently named sources of one runtime (the library as one source, and as one source per form so that every source starts at the same position), against the same text loaded as one source. Non-trivial = the program fails; distinct by source text")
 	r.Assume("frame names are compared only where both sides name the function (anonymous lambdas have no name)")
 	r.Assume("with elimination on, the trace of a program containing recursion must be an order-preserving subsequence of the reference chain whose innermost frame is present; for non-tail recursion and for programs without recursion it must be equal")
 	var seqs [][]int
@@ -442,6 +442,7 @@ func run(r *core.Run) {
 	})
 	r.AddStates(int64(len(seqs) * len(leaves)))
 	nestedLoads(r)
+	multiSources(r)
 }
 
 func ifs(c bool, a, b string) string {
@@ -452,6 +453,14 @@ func ifs(c bool, a, b string) string {
 }
 
 func replay(v core.Violation) (bool, string) {
+	if strings.HasPrefix(v.Class, "multi-source:") {
+		mk, err := core.CaseOf[multiKase](v)
+		if err != nil {
+			return false, err.Error()
+		}
+		cls, detail := multiJudge(mk)
+		return cls != "", detail
+	}
 	if strings.HasPrefix(v.Class, "nested-load:") {
 		nk, err := core.CaseOf[nestedKase](v)
 		if err != nil {
